@@ -55,12 +55,14 @@ func (s *Store) Set(id packets.PacketID) (bool, error) {
 	}
 	c := s.pool.Get()
 	defer c.Close()
-	_, err := c.Do("hset", getKey(s.clientID), id, 1)
+	// HSET reports 0 when the field already exists: the identifier was recorded earlier,
+	// possibly before a restart (the cache is empty then)
+	added, err := redis.Int(c.Do("hset", getKey(s.clientID), id, 1))
 	if err != nil {
 		return false, err
 	}
 	s.unackpublish[id] = struct{}{}
-	return false, nil
+	return added == 0, nil
 }
 
 func (s *Store) Remove(id packets.PacketID) error {
